@@ -58,6 +58,15 @@ def canon(sent: Dict[str, Any]) -> Dict[str, Any]:
     return out
 
 
+def root_fragment_overlap(authored, op_name: str) -> bool:
+    """The operation spreads a fragment on the root type at top level, so that several top-level selections denote ONE response key."""
+    from graphql import FieldNode, FragmentSpreadNode, OperationDefinitionNode
+    for d in authored.definitions:
+        if isinstance(d, OperationDefinitionNode) and d.name and d.name.value == op_name:
+            return any(isinstance(s, FragmentSpreadNode) for s in d.selection_set.selections) and len(d.selection_set.selections) > 1
+    return False
+
+
 def norm(v: Any) -> Any:
     import enum
 
@@ -248,6 +257,8 @@ def worker(case: Dict[str, Any]) -> CaseResult:
                             mech = "c15:shorter-single:" + label
                             if FR in plist_norm and plist_norm.index(FR) < plist_norm.index(SR) and ov == one:
                                 mech = "shorter-results-no-effect-after-forward-refs"
+                            elif ov == one and root_fragment_overlap(authored, key.split("/")[0]):
+                                mech = "shorter-results-counts-root-fragment-field-twice"
                             violations.append(Violation(PROP, "shorter-results-single-field", "[%s] %s: returned %s, the single top-level field of the unplugged result is %s" % (
                                 label, key, json.dumps(ov)[:300], json.dumps(want)[:300]), fl, replay_case, mech=mech))
                     else:
@@ -365,7 +376,7 @@ def run(tier: str, seed: int) -> int:
 
 
 def replay(data) -> int:
-    case = {k: v for k, v in data["case"].items() if not k.startswith("_")}
+    case = dict(data["case"])
     res = core.run_forked([case], worker)[0]
     print("status:", res.status, res.note)
     for v in res.violations:
